@@ -102,7 +102,7 @@ def count_nontrivial(chk, traces, pred, nsamples=3):
 
 def dir_check(pid, kinds, nontrivial, rule, cfg_policy="alt", extra_quick_cfgs=(), thorough_cfgs=None, assumptions=()):
     chk = Check(pid, "model_checking")
-    cfgs = ["MCDirectory_quick.cfg"] + list(extra_quick_cfgs)
+    cfgs = ["MCDirectory_quick.cfg", "MCDirectory_empty.cfg"] + [c for c in extra_quick_cfgs if c != "MCDirectory_empty.cfg"]
     sim = None
     if chk.tier == "thorough":
         cfgs = thorough_cfgs or ["MCDirectory_quick.cfg", "MCDirectory_empty.cfg", "MCDirectory_thorough.cfg", "MCDirectory_deep.cfg"]
